@@ -18,7 +18,7 @@ type FaultSpec struct {
 	DelayC2S []int   `json:"delay_c2s,omitempty"` // held back DelayMs (overtaken by later datagrams)
 	DelayS2C []int   `json:"delay_s2c,omitempty"`
 	DelayMs  int     `json:"delay_ms,omitempty"`
-	Loss     float64 `json:"loss,omitempty"`    // random, both directions
+	Loss     float64 `json:"loss,omitempty"` // random, both directions
 	Dup      float64 `json:"dup,omitempty"`
 	Reorder  float64 `json:"reorder,omitempty"` // fraction delayed by a random 1..DelayMs
 	Seed     int64   `json:"seed"`
